@@ -116,7 +116,8 @@ impl PreBoneDeformer {
             .items
             .iter()
             .find(|x| x.body_id == from_body_id)?;
-        let mut next = &self.header.links[item.link_index as usize];
+        // link and item indices come from the file: a damaged file may point outside the tables
+        let mut next = self.header.links.get(item.link_index as usize)?;
 
         if next.next_sibling_index == -1 {
             return None;
@@ -124,11 +125,14 @@ impl PreBoneDeformer {
 
         let mut bones = vec![];
 
+        // a well-formed chain visits every link at most once, anything longer is a cycle
+        let mut remaining_steps = self.header.links.len();
+
         loop {
             for i in 0..item.deformer.bone_count {
                 bones.push(PreBoneDeformBone {
-                    name: item.deformer.bone_names[i as usize].clone(),
-                    deform: item.deformer.transform[i as usize],
+                    name: item.deformer.bone_names.get(i as usize)?.clone(),
+                    deform: *item.deformer.transform.get(i as usize)?,
                 })
             }
 
@@ -136,8 +140,10 @@ impl PreBoneDeformer {
                 break;
             }
 
-            next = &self.header.links[next.parent_index as usize];
-            item = &self.header.items[next.deformer_index as usize];
+            remaining_steps = remaining_steps.checked_sub(1)?;
+
+            next = self.header.links.get(next.parent_index as usize)?;
+            item = self.header.items.get(next.deformer_index as usize)?;
 
             if item.body_id == to_body_id {
                 break;
